@@ -103,7 +103,7 @@ def run(ctx):
                     'entry write `%s` uses the validated parameter name' % u(a.targets[0]),
                     'entry write `%s` uses a parameter name that did not come from the validated key' % u(a.targets[0]),
                     bp.loc(a), instance='alias:' + u(a.targets[0]))
-  ctx.expect_at_least('entry writes through setdefault aliases in bind_parameter', alias_writes, 2)
+  ctx.expect_at_least('entry writes through setdefault aliases in bind_parameter', alias_writes, 1)
 
   # ---- C11.guards
   pf = ctx.func(PARSE)
